@@ -191,7 +191,7 @@ func basicOf(user, pass string) string { return "Basic " + b64(user+":"+pass) }
 func oracleC06(w *polWorld, s *sut.SUT) {
 	env, c := w.env, w.c
 	tab := parseCreds(c.Creds)
-	pacMap := func(host string) string { return pacResultFor(c.PAC, host) }
+	pacMap := pacFor(c.PAC)
 
 	// 1. secrets of the client->this-proxy hop must appear nowhere
 	clientSecrets := map[string]string{}
